@@ -39,8 +39,11 @@ HDRS = [
     ("Accept", "*/*"),
     ("Cookie", "a=b"),
 ]
-METHODS = ["GET", "POST", "M-SEARCH"]
-ALPHA = "/a%2F5+"
+METHODS = ["GET", "M-SEARCH"]
+HSETS = [[], [HDRS[0], HDRS[1]], [HDRS[2], HDRS[4]], [HDRS[0], HDRS[3]]]
+# (method index, header set, https, query) combinations chosen by ONE symbolic selector
+MODES = [(0, 0, False, ""), (1, 1, True, "a=1&b"), (0, 2, False, "x"), (0, 3, True, "")]
+ALPHA = "/+%2F"
 
 
 def _norm(k: str) -> str:
@@ -56,18 +59,19 @@ def classify_env(**kw):
     return None
 
 
-def pre_env(mi: int, path: str, query: str, hi: int, pd: str, h0: int, h1: int, https: bool) -> bool:
-    if not (0 <= hi < len(HOSTS) and in_shard(hi) and 0 <= mi < len(METHODS)):
+def pre_env(mode: int, path: str, hi: int, pd: str) -> bool:
+    if not (0 <= hi < len(HOSTS) and in_shard(hi) and 0 <= mode < len(MODES)):
         return False
-    if not (1 <= len(path) <= P.L and len(query) <= P.Q and len(pd) <= (2 if HOSTS[IDX[hi]][0] is None else 0)):
+    if not (1 <= len(path) <= P.L and len(pd) <= (P.PD if HOSTS[IDX[hi]][0] is None else 0)):
         return False
-    if not (0 <= h0 <= len(HDRS) and 0 <= h1 <= len(HDRS) and (h0 < h1 or h1 == len(HDRS))):
+    if path[0] != "/":
         return False
+    if mode != 0 and len(path) > 2:
+        return False     # long symbolic paths only with the first (method, headers, scheme, query) combination
+    if HOSTS[IDX[hi]][0] is None and len(path) > 1:
+        return False     # symbolic port digits: the path stays "/" (int()/str() of symbolic digits is slow)
     for c in path:
         if c not in ALPHA:
-            return False
-    for c in query:
-        if not ("!" <= c <= "~"):
             return False
     for c in pd:
         if c not in "0123456789":
@@ -79,22 +83,23 @@ def pre_env(mi: int, path: str, query: str, hi: int, pd: str, h0: int, h1: int, 
 
 @harness(
     pre=pre_env,
-    quick=dict(L=4, Q=2, timeout=120, reach_timeout=120),
-    thorough=dict(L=5, Q=3, timeout=900, reach_timeout=300),
+    quick=dict(L=4, PD=1, timeout=200, reach_timeout=200),
+    thorough=dict(L=5, PD=2, timeout=900, reach_timeout=300),
     nshards=len(HOSTS),
     reach=["path_decoded", "explicit_port", "empty_port", "ipv6_literal", "content_headers", "symbolic_port"],
     classify=classify_env,
     units=["wsgi.WSGIContainer.environ", "wsgi.to_wsgi_str", "escape.url_unescape",
            "httputil.HTTPServerRequest.__init__ (Host validation, path/query split)"],
     stubs=["Host by symbolic index from HOSTS (name, name:port, v4:port, mixed case, empty port 'h:', [v6], [v6]:port, "
-           "'h:'+<=2 symbolic digits); method from %r; <= 2 request headers from a pool of 5; path over %r, query = "
-           "printable ASCII <= Q" % (METHODS, ALPHA),
-           "connection.context supplies remote_ip/protocol (http or https by a symbolic bool)", "constant clock"],
+           "'h:'+<=PD symbolic digits); (method, request-header set, scheme, query) from 4 pooled combinations %r; "
+           "path = symbolic str over %r" % (MODES, ALPHA),
+           "connection.context supplies remote_ip/protocol", "constant clock"],
     outside=["raw non-ASCII bytes in the request target (observation: latin-1 decoded, then re-encoded as UTF-8 by "
              "url_unescape -> PATH_INFO is double-encoded)", "un-bracketed IPv6 Host values", "request bodies (wsgi.input)"],
 )
-def h_environ(mi: int, path: str, query: str, hi: int, pd: str, h0: int, h1: int, https: bool):
-    hi, mi, h0, h1 = IDX[hi], IDX[mi], IDX[h0], IDX[h1]
+def h_environ(mode: int, path: str, hi: int, pd: str):
+    hi = IDX[hi]
+    mi, hs, https, query = MODES[IDX[mode]]
     hv, name, port = HOSTS[hi]
     if hv is None:
         hv = "h:" + pd
@@ -102,7 +107,7 @@ def h_environ(mi: int, path: str, query: str, hi: int, pd: str, h0: int, h1: int
         reached("symbolic_port") if pd != "" else None
     headers = httputil.HTTPHeaders()
     headers["Host"] = hv
-    sel = [HDRS[i] for i in (h0, h1) if i < len(HDRS)]
+    sel = HSETS[hs]
     for k, v in sel:
         headers[k] = v
     uri = path + ("?" + query if query != "" else "")
@@ -157,9 +162,11 @@ RHDRS = [("Content-Type", "text/plain"), ("Content-Length", "7"), ("Server", "mi
          ("Set-Cookie", "c=d"), ("content-type", "x/y")]
 
 
-def pre_resp(si: int, r0: int, r1: int, chunks: List[bytes], viawrite: bool) -> bool:
-    n = len(RHDRS)
-    if not (0 <= si < len(STATUSES) and in_shard(si) and 0 <= r0 <= n and 0 <= r1 <= n):
+RSETS = [[], [RHDRS[0]], [RHDRS[1], RHDRS[2]], [RHDRS[3], RHDRS[4], RHDRS[5]], [RHDRS[6], RHDRS[3]]]
+
+
+def pre_resp(si: int, rs: int, chunks: List[bytes], viawrite: bool) -> bool:
+    if not (0 <= si < len(STATUSES) and 0 <= rs < len(RSETS) and in_shard(si + len(STATUSES) * rs)):
         return False
     if len(chunks) > P.NC:
         return False
@@ -173,19 +180,18 @@ def pre_resp(si: int, r0: int, r1: int, chunks: List[bytes], viawrite: bool) -> 
     pre=pre_resp,
     quick=dict(NC=2, LC=2, timeout=120),
     thorough=dict(NC=3, LC=3, timeout=900),
-    nshards=len(STATUSES),
+    nshards=len(STATUSES) * 5,
     reach=["defaults_added", "no_defaults_304", "app_headers_kept", "two_chunks", "write_callable"],
     units=["wsgi.WSGIContainer.__call__", "wsgi.WSGIContainer.handle_request (start_response, body iteration, defaults)",
            "wsgi.WSGIContainer.environ", "ioloop.IOLoop.spawn_callback/run_in_executor (dummy executor)"],
     stubs=["VLoop/FakeAio virtual loop (vp/env.py), run_in_executor runs inline", "recording DummyConnection for "
-           "write_headers/finish", "status from %r, <= 2 response headers from a pool of 7 (ordered pair by symbolic "
-           "indices), body = <= NC chunks of <= LC symbolic bytes, optionally the first chunk through the write() callable"
+           "write_headers/finish", "status from %r, one of 5 pooled response-header lists (<= 3 headers, incl. repeated Set-Cookie and lower-case names), body = <= NC chunks of <= LC symbolic bytes, optionally the first chunk through the write() callable"
            % (STATUSES,), "tornado.access logger disabled (log formatting is not part of the claim)", "constant clock"],
     outside=["apps that raise or never call start_response", "exc_info", "real thread-pool executors"],
 )
-def h_response(si: int, r0: int, r1: int, chunks: List[bytes], viawrite: bool):
-    si, r0, r1 = IDX[si], IDX[r0], IDX[r1]
-    app_headers = [RHDRS[i] for i in (r0, r1) if i < len(RHDRS)]
+def h_response(si: int, rs: int, chunks: List[bytes], viawrite: bool):
+    si, rs = IDX[si], IDX[rs]
+    app_headers = list(RSETS[rs])
     given = list(app_headers)
     closed = []
 
